@@ -12,7 +12,7 @@ cd $W
 # place demo files
 declare -a DEMOS
 while read -r line; do
-  p=$(echo "$line" | grep -oE '[A-Za-z0-9_.-]+(/[A-Za-z0-9_.-]+)+\.go' | tail -1)
+  p=$(echo "$line" | grep -oE '[A-Za-z0-9_.-]+(/[A-Za-z0-9_.-]+)+\.go' | grep -v '^_out' | head -1)
   [ -z "$p" ] && continue
   f=$(basename "$p")
   if [ -f "$D/$f" ]; then mkdir -p "$(dirname "$p")"; cp "$D/$f" "$p"; DEMOS+=("$p"); fi
